@@ -130,6 +130,8 @@ Lemma firstn_exact {A} : forall (a b : list A) n, length a = n -> firstn n (a ++
 Proof. intros a b n <-. rewrite firstn_app, Nat.sub_diag, firstn_all. cbn. apply app_nil_r. Qed.
 Lemma skipn_exact {A} : forall (a b : list A) n, length a = n -> skipn n (a ++ b) = b.
 Proof. intros a b n <-. rewrite skipn_app, Nat.sub_diag, skipn_all. reflexivity. Qed.
+Lemma skipn_plus {A} : forall (a b : list A) n, skipn (length a + n) (a ++ b) = skipn n b.
+Proof. intros. rewrite skipn_app. rewrite skipn_all2 by lia. replace (length a + n - length a)%nat with n by lia. reflexivity. Qed.
 Lemma blen_app : forall a b, blen (a ++ b) = blen a + blen b.
 Proof. intros. unfold blen. rewrite app_length. lia. Qed.
 Lemma put16_length : forall n, length (put16 n) = 2%nat. Proof. reflexivity. Qed.
@@ -571,9 +573,200 @@ Proof.
   - apply Forall_app. split; [apply drop_code_ok; assumption|]. constructor; [|constructor]. cbn [item_ok]. repeat split; [lia|lia|exact Hd].
 Qed.
 
+(* ================================================================== SetOption / RewriteForProxy *)
+Definition has_code (code : N) (o : N * bytes) : bool := fst o =? code.
+
+Lemma insert_option_wf : forall hdr its trail code data, length hdr = 240%nat -> Forall item_ok its ->
+  insert_option (wf_pkt hdr its trail) code data = Ok (hdr ++ enc its ++ (code :: blen data mod 256 :: data) ++ 255 :: trail).
+Proof.
+  intros hdr its trail code data Lh Hok. unfold insert_option. rewrite wf_pkt_len by assumption.
+  unfold wf_pkt, opt_start. rewrite skipn_exact by assumption.
+  pose proof (enc_length_ge its) as Hge.
+  set (P := hdr ++ enc its ++ 255 :: trail).
+  replace (S (length P)) with (length its + S (length P - length its))%nat by (subst P; rewrite !app_length; lia).
+  rewrite end_loop_enc by assumption. cbn [end_loop]. change (255 =? 0) with false. change (255 =? 255) with true. cbn iota. cbn [rbind].
+  subst P. unfold insert_at.
+  replace (hdr ++ enc its ++ 255 :: trail) with ((hdr ++ enc its) ++ 255 :: trail) by (rewrite <- app_assoc; reflexivity).
+  rewrite firstn_exact, skipn_exact by (rewrite app_length; lia). rewrite <- !app_assoc. reflexivity.
+Qed.
+
+Lemma ranges_single : forall code its i s e, ranges_of code i its = [(s, e)] ->
+  exists its1 d its2, its = its1 ++ Opt code d :: its2 /\ existsb (is_code code) its1 = false /\ existsb (is_code code) its2 = false /\ s = (i + length (enc its1))%nat /\ e = (s + 2 + length d)%nat.
+Proof.
+  intros code its. induction its as [|it r IH]; intros i s e H; [discriminate|].
+  cbn [ranges_of] in H. destruct (is_code code it) eqn:Ec; cbn [app] in H.
+  - injection H as Hs He Hr. destruct it as [|c d]; [discriminate|]. cbn [is_code] in Ec. apply N.eqb_eq in Ec. subst c.
+    exists [], d, r. cbn [app existsb enc concat map length enc_item] in *. repeat split; try lia.
+    apply (ranges_nil_iff code r (i + S (S (length d)))). exact Hr.
+  - destruct (IH _ _ _ H) as [its1 [d [its2 [E [H1 [H2 [Hs He]]]]]]]. exists (it :: its1), d, its2.
+    subst r. cbn [app existsb]. rewrite Ec, H1. repeat split; try assumption. rewrite enc_cons, app_length. lia.
+Qed.
+Lemma absent_filters : forall code its, existsb (is_code code) its = false ->
+  filter (has_code code) (opts_of its) = [] /\ filter (not_code code) (opts_of its) = opts_of its.
+Proof.
+  intros code its. induction its as [|[|c d] r IH]; intros H; [split; reflexivity| |].
+  - cbn [existsb is_code orb] in H. cbn [opts_of]. auto.
+  - cbn [existsb is_code] in H. apply orb_false_iff in H. destruct H as [Hc Hr]. destruct (IH Hr) as [I1 I2].
+    cbn [opts_of filter]. change (has_code code (c, d)) with (c =? code). change (not_code code (c, d)) with (negb (c =? code)).
+    rewrite Hc. cbn [negb]. rewrite I1, I2. split; reflexivity.
+Qed.
+Lemma filter_not_has : forall code l, filter (has_code code) (filter (not_code code) l) = [].
+Proof.
+  intros code l. induction l as [|o r IH]; [reflexivity|]. cbn [filter]. unfold not_code at 1.
+  destruct (fst o =? code) eqn:E; cbn [negb]; [exact IH|]. cbn [filter]. unfold has_code at 1. rewrite E. exact IH.
+Qed.
+Lemma filter_not_not : forall code l, filter (not_code code) (filter (not_code code) l) = filter (not_code code) l.
+Proof.
+  intros code l. induction l as [|o r IH]; [reflexivity|]. cbn [filter].
+  destruct (not_code code o) eqn:E; [|exact IH]. cbn [filter]. rewrite E, IH. reflexivity.
+Qed.
+
+(* Result of SetOptionUint32/SetOptionIP on a well-formed packet: again a well-formed packet with the same fixed
+   header and trailer whose decoded options are the old ones without [code], plus exactly one (code, val4). *)
+Definition set_result (hdr : bytes) (its : list item) (trail : bytes) (code : N) (val4 : bytes) (out : bytes) : Prop :=
+  exists its', out = wf_pkt hdr its' trail /\ Forall item_ok its' /\ filter (not_code code) (opts_of its') = filter (not_code code) (opts_of its) /\ filter (has_code code) (opts_of its') = [(code, val4)].
+
+Lemma set_option4_repaired : forall hdr its trail code val4, length hdr = 240%nat -> Forall item_ok its ->
+  code <> 0 -> code <> 255 -> length val4 = 4%nat ->
+  exists out, set_option4 Repaired (wf_pkt hdr its trail) code val4 = Ok out /\ set_result hdr its trail code val4 out.
+Proof.
+  intros hdr its trail code val4 Lh Hok H0 H255 Lv. unfold set_option4.
+  rewrite wf_pkt_len, scan_wf by assumption. cbn [rbind].
+  assert (Hins : exists out, insert_option (remove_ranges (wf_pkt hdr its trail) (ranges_of code 240 its)) code val4 = Ok out /\                           set_result hdr its trail code val4 out).
+  { assert (Erm : remove_ranges (wf_pkt hdr its trail) (ranges_of code 240 its) = wf_pkt hdr (drop_code code its) trail)
+      by (unfold wf_pkt; rewrite <- Lh; apply remove_ranges_enc).
+    rewrite Erm, insert_option_wf by (try assumption; apply drop_code_ok; assumption).
+    eexists. split; [reflexivity|]. exists (drop_code code its ++ [Opt code val4]).
+    assert (Eb : blen val4 mod 256 = blen val4) by (unfold blen; rewrite Lv; reflexivity).
+    split; [|split; [|split]].
+    - unfold wf_pkt. rewrite enc_app, Eb. unfold enc at 3. cbn [map concat enc_item]. rewrite app_nil_r, <- !app_assoc. reflexivity.
+    - apply Forall_app. split; [apply drop_code_ok; assumption|]. constructor; [|constructor]. cbn [item_ok]. repeat split; try assumption. lia.
+    - rewrite opts_of_app, filter_app, opts_of_drop. fold (not_code code). rewrite filter_not_not. cbn [opts_of filter].
+      change (not_code code (code, val4)) with (negb (code =? code)). rewrite N.eqb_refl. cbn [negb]. apply app_nil_r.
+    - rewrite opts_of_app, filter_app, opts_of_drop. fold (not_code code). rewrite filter_not_has. cbn [opts_of filter app].
+      change (has_code code (code, val4)) with (code =? code). rewrite N.eqb_refl. reflexivity. }
+  destruct (ranges_of code 240 its) as [|[s e] [|r2 rs]] eqn:Er; try exact Hins.
+  destruct (Nat.eqb_spec (e - s) 6) as [E6|E6]; [|exact Hins]. clear Hins.
+  destruct (ranges_single _ _ _ _ _ Er) as [its1 [d [its2 [Eits [A1 [A2 [Hs He]]]]]]].
+  assert (Ld : length d = 4%nat) by lia.
+  eexists. split; [reflexivity|]. exists (its1 ++ Opt code val4 :: its2). subst its.
+  apply Forall_app in Hok. destruct Hok as [Ok1 Ok2]. inversion Ok2 as [|? ? Okd Ok3]; subst.
+  destruct (absent_filters _ _ A1) as [F1 G1]. destruct (absent_filters _ _ A2) as [F2 G2].
+  split; [|split; [|split]].
+  - unfold overwrite, wf_pkt. rewrite !enc_app, !enc_cons. cbn [enc_item]. rewrite Lv.
+    assert (Eb : blen d = blen val4) by (unfold blen; rewrite Ld, Lv; reflexivity).
+    replace (hdr ++ (enc its1 ++ (code :: blen d :: d) ++ enc its2) ++ 255 :: trail)
+      with ((hdr ++ enc its1 ++ [code; blen d]) ++ d ++ enc its2 ++ 255 :: trail) by (rewrite <- !app_assoc; reflexivity).
+    rewrite firstn_exact by (rewrite !app_length; cbn [length]; lia).
+    replace (240 + length (enc its1) + 2 + 4)%nat with (length (hdr ++ enc its1 ++ [code; blen d]) + length d)%nat
+      by (rewrite !app_length; cbn [length]; lia).
+    rewrite skipn_plus. rewrite skipn_exact by reflexivity.
+    rewrite Eb, <- !app_assoc. reflexivity.
+  - apply Forall_app. split; [assumption|]. constructor; [|assumption]. cbn [item_ok] in *. repeat split; try tauto. lia.
+  - rewrite !opts_of_app. cbn [opts_of]. rewrite !filter_app. cbn [filter].
+    change (not_code code (code, val4)) with (negb (code =? code)). change (not_code code (code, d)) with (negb (code =? code)).
+    rewrite N.eqb_refl. reflexivity.
+  - rewrite !opts_of_app. cbn [opts_of]. rewrite !filter_app. cbn [filter].
+    change (has_code code (code, val4)) with (code =? code). rewrite N.eqb_refl, F1, F2. reflexivity.
+Qed.
+
+Lemma filter_filter_imp {A} : forall (g f : A -> bool) l, (forall o, g o = true -> f o = true) ->
+  filter g (filter f l) = filter g l.
+Proof.
+  intros g f l H. induction l as [|o r IH]; [reflexivity|]. cbn [filter].
+  destruct (f o) eqn:Ef; cbn [filter]; [rewrite IH; reflexivity|].
+  destruct (g o) eqn:Eg; [rewrite (H o Eg) in Ef; discriminate|exact IH].
+Qed.
+Lemma set_result_other : forall hdr its trail code val4 out (g : N * bytes -> bool),
+  set_result hdr its trail code val4 out -> (forall o, g o = true -> not_code code o = true) ->
+  exists its', out = wf_pkt hdr its' trail /\ Forall item_ok its' /\
+    filter (has_code code) (opts_of its') = [(code, val4)] /\
+    filter g (opts_of its') = filter g (opts_of its).
+Proof.
+  intros hdr its trail code val4 out g [its' [E [Hok [Hn Hh]]]] Hg. exists its'. repeat split; try assumption.
+  rewrite <- (filter_filter_imp g (not_code code) (opts_of its')) by assumption.
+  rewrite <- (filter_filter_imp g (not_code code) (opts_of its)) by assumption. rewrite Hn. reflexivity.
+Qed.
+Lemma has_not : forall c1 c2 o, c1 <> c2 -> has_code c1 o = true -> not_code c2 o = true.
+Proof.
+  intros c1 c2 o Hne H. unfold has_code, not_code in *. apply N.eqb_eq in H. rewrite H.
+  destruct (N.eqb_spec c1 c2); [contradiction|reflexivity].
+Qed.
+Lemma to4_length : forall ip b, to4 ip = Some b -> length b = 4%nat.
+Proof.
+  intros [x|] b H; [|discriminate]. unfold to4 in H.
+  destruct (Nat.eqb_spec (length x) 4); [congruence|].
+  destruct (Nat.eqb_spec (length x) 16); cbn [andb] in H; [|discriminate].
+  destruct (bytes_eqb _ _); [|discriminate]. assert (Eb : b = skipn 12 x) by congruence. subst b. rewrite skipn_length. lia.
+Qed.
+
+Definition proxy_other (o : N * bytes) : bool :=
+  not_code 54 o && not_code 51 o && not_code 58 o && not_code 59 o.
+
+Lemma rewrite_for_proxy_repaired : forall hdr its trail sid ip4 lease, length hdr = 240%nat -> Forall item_ok its ->
+  to4 sid = Some ip4 ->
+  exists out its', rewrite_for_proxy Repaired (wf_pkt hdr its trail) sid lease = Ok out /\
+    out = wf_pkt hdr its' trail /\ Forall item_ok its' /\
+    filter (has_code 54) (opts_of its') = [(54, ip4)] /\
+    filter (has_code 51) (opts_of its') = [(51, put32 lease)] /\
+    filter (has_code 58) (opts_of its') = [(58, put32 (lease / 2))] /\
+    filter (has_code 59) (opts_of its') = [(59, put32 (lease * 7 / 8))] /\
+    filter proxy_other (opts_of its') = filter proxy_other (opts_of its).
+Proof.
+  intros hdr its trail sid ip4 lease Lh Hok Hsid. pose proof (to4_length _ _ Hsid) as L4.
+  assert (Hpo : forall c o, (c = 54 \/ c = 51 \/ c = 58 \/ c = 59) -> proxy_other o = true -> not_code c o = true).
+  { intros c o Hc H. unfold proxy_other in H. repeat (apply andb_true_iff in H; destruct H as [H ?]).
+    destruct Hc as [->|[->|[->| ->]]]; assumption. }
+  unfold rewrite_for_proxy, set_option_ip, set_option_u32, t2_of. rewrite Hsid.
+  destruct (set_option4_repaired hdr its trail 54 ip4 Lh Hok ltac:(lia) ltac:(lia) L4) as [o1 [E1 R1]]. rewrite E1. cbn [rbind].
+  destruct R1 as [i1 [-> [K1 [N1 H1]]]].
+  destruct (set_option4_repaired hdr i1 trail 51 (put32 lease) Lh K1 ltac:(lia) ltac:(lia) eq_refl) as [o2 [E2 R2]]. rewrite E2. cbn [rbind].
+  destruct R2 as [i2 [-> [K2 [N2 H2]]]].
+  destruct (set_option4_repaired hdr i2 trail 58 (put32 (lease / 2)) Lh K2 ltac:(lia) ltac:(lia) eq_refl) as [o3 [E3 R3]]. rewrite E3. cbn [rbind].
+  destruct R3 as [i3 [-> [K3 [N3 H3]]]].
+  destruct (set_option4_repaired hdr i3 trail 59 (put32 (lease * 7 / 8)) Lh K3 ltac:(lia) ltac:(lia) eq_refl) as [o4 [E4 R4]].
+  destruct R4 as [i4 [-> [K4 [N4 H4]]]].
+  exists (wf_pkt hdr i4 trail), i4. split; [exact E4|]. split; [reflexivity|]. split; [exact K4|].
+  (* transport each filter through the later rewrites *)
+  assert (T : forall (g : N * bytes -> bool) a b c, (forall o, g o = true -> not_code c o = true) ->
+              filter (not_code c) (opts_of a) = filter (not_code c) (opts_of b) -> filter g (opts_of a) = filter g (opts_of b)).
+  { intros g a b c Hg Hn. rewrite <- (filter_filter_imp g (not_code c) (opts_of a)) by assumption.
+    rewrite <- (filter_filter_imp g (not_code c) (opts_of b)) by assumption. rewrite Hn. reflexivity. }
+  repeat split.
+  - rewrite (T _ i4 i3 59) by (first [assumption | intros; eapply has_not; [|eassumption]; lia]).
+    rewrite (T _ i3 i2 58) by (first [assumption | intros; eapply has_not; [|eassumption]; lia]).
+    rewrite (T _ i2 i1 51) by (first [assumption | intros; eapply has_not; [|eassumption]; lia]). exact H1.
+  - rewrite (T _ i4 i3 59) by (first [assumption | intros; eapply has_not; [|eassumption]; lia]).
+    rewrite (T _ i3 i2 58) by (first [assumption | intros; eapply has_not; [|eassumption]; lia]). exact H2.
+  - rewrite (T _ i4 i3 59) by (first [assumption | intros; eapply has_not; [|eassumption]; lia]). exact H3.
+  - exact H4.
+  - rewrite (T _ i4 i3 59) by (first [assumption | intros; apply Hpo; auto]).
+    rewrite (T _ i3 i2 58) by (first [assumption | intros; apply Hpo; auto]).
+    rewrite (T _ i2 i1 51) by (first [assumption | intros; apply Hpo; auto]).
+    rewrite (T _ i1 its 54) by (first [assumption | intros; apply Hpo; auto]). reflexivity.
+Qed.
+
+Lemma set_giaddr_spec : forall pkt gi g, to4 gi = Some g -> (28 <= length pkt)%nat ->
+  set_giaddr pkt gi = firstn 24 pkt ++ g ++ skipn 28 pkt.
+Proof.
+  intros pkt gi g Hg Hl. unfold set_giaddr. rewrite Hg. destruct (Nat.ltb_spec (length pkt) 28); [lia|].
+  unfold overwrite. rewrite (to4_length _ _ Hg). reflexivity.
+Qed.
+Lemma increment_hops_spec : forall pkt, (3 < length pkt)%nat ->
+  increment_hops pkt = firstn 3 pkt ++ [(nth 3 pkt 0 + 1) mod 256] ++ skipn 4 pkt.
+Proof.
+  intros pkt Hl. unfold increment_hops. destruct (Nat.ltb_spec 3 (length pkt)); [|lia]. reflexivity.
+Qed.
+
 (* concrete packets used by the non-vacuity examples and the refutation witnesses *)
 Definition ex_hdr : bytes := zeros 236 ++ magic.
 Definition ex_two82 : list item := [Opt 53 [1]; Pad; Opt 82 [1;1;65]; Opt 82 [1;1;66]].
 Lemma ex_two82_ok : Forall item_ok ex_two82.
 Proof. unfold ex_two82. repeat (constructor; [cbn [item_ok length]; try exact I; repeat split; lia|]). constructor. Qed.
 
+Definition ex_badlen : list item := [Opt 53 [5]; Opt 51 [0; 9]; Opt 54 [1;2;3;4]].
+Lemma ex_badlen_ok : Forall item_ok ex_badlen.
+Proof. unfold ex_badlen. repeat (constructor; [cbn [item_ok length]; try exact I; repeat split; lia|]). constructor. Qed.
+Definition ex_server : list item := [Opt 53 [5]; Opt 54 [1;2;3;4]; Opt 51 [0;0;0;9]; Pad; Opt 58 [0;0;0;4]; Opt 59 [0;0;0;7]; Opt 1 [255;255;255;0]].
+Lemma ex_server_ok : Forall item_ok ex_server.
+Proof. unfold ex_server. repeat (constructor; [cbn [item_ok length]; try exact I; repeat split; lia|]). constructor. Qed.
